@@ -215,6 +215,15 @@ func c07Run(c c07Case) (sig string, err error) {
 			if rd.maxReq > c.Max || rd.pos-before > c.Max {
 				return "oversize-buffered", fmt.Errorf("announced %d: receiver asked for %d bytes at once / consumed %d with max %d", c.Announce, rd.maxReq, rd.pos-before, c.Max)
 			}
+			// a receiver that goes on after the rejection (the server's read loop does) has not kept the announced amount
+			// in mind either: the next call does not make room for it
+			var m2, m3 runtime.MemStats
+			runtime.ReadMemStats(&m2)
+			_ = safely(func() error { var v2 ttlv.Value; return st.Recv(&v2) })
+			runtime.ReadMemStats(&m3)
+			if again := m3.TotalAlloc - m2.TotalAlloc; again > uint64(c.Max)+256<<10 && again >= uint64(c.Announce)/2 {
+				return "oversize-buffered-by-next-recv", fmt.Errorf("announced %d bytes with max %d: rejected, but the next Recv on the stream allocated %d bytes", c.Announce, c.Max, again)
+			}
 		} else if rerr == nil && int64(off)+total > int64(len(stream)) {
 			return "truncated-yields-message", fmt.Errorf("announced %d bytes, stream has only %d more, but Recv returned a message", c.Announce, len(stream)-off)
 		}
